@@ -29,6 +29,7 @@ type frame struct {
 	result Value
 	caller *frame
 	pos    token.Pos
+	recovered bool
 }
 
 func (e *Exec) get(fr *frame, v ssa.Value) Value {
@@ -182,12 +183,55 @@ func (e *Exec) callSSA(caller *frame, pos token.Pos, fn *ssa.Function, args []Va
 		fr.env[l] = mkPtr(cell)
 	}
 	fr.block = fn.Blocks[0]
-	e.runFrame(fr)
+	e.runFrameRecover(fr)
 	e.depth--
 	if callTrace != "" && strings.Contains(name, callTrace) {
 		fmt.Fprintf(os.Stderr, "%*s  = %s\n", e.depth+1, "", showVal(fr.result))
 	}
 	return fr.result
+}
+
+// runFrameRecover runs the frame; a Go panic of the analysed program (targetPanic) unwinding
+// through a function that has deferred calls runs them, and if one of them calls recover()
+// the function resumes at its recover block and returns normally.
+func (e *Exec) runFrameRecover(fr *frame) {
+	if fr.fn.Recover == nil {
+		e.runFrame(fr)
+		return
+	}
+	depth := e.depth
+	func() {
+		defer func() {
+			r := recover()
+			if r == nil {
+				return
+			}
+			tp, ok := r.(targetPanic)
+			if !ok || len(fr.defers) == 0 {
+				panic(r)
+			}
+			e.depth = depth
+			saved := e.panicking
+			e.panicking = &tp
+			for i := len(fr.defers) - 1; i >= 0; i-- {
+				d := fr.defers[i]
+				e.call(fr, fr.pos, d.fn, d.args)
+			}
+			fr.defers = nil
+			recovered := e.panicking == nil
+			e.panicking = saved
+			if !recovered {
+				panic(r)
+			}
+			fr.recovered = true
+		}()
+		e.runFrame(fr)
+	}()
+	if fr.recovered {
+		fr.recovered = false
+		fr.prev, fr.block = nil, fr.fn.Recover
+		e.runFrame(fr)
+	}
 }
 
 func (e *Exec) runFrame(fr *frame) {
@@ -1523,7 +1567,12 @@ func (e *Exec) callBuiltin(fr *frame, pos token.Pos, fn *ssa.Builtin, args []Val
 	case "print", "println":
 		return nil
 	case "recover":
-		return IfaceV{}
+		if e.panicking == nil {
+			return IfaceV{}
+		}
+		msg := e.panicking.msg
+		e.panicking = nil
+		return IfaceV{t: types.Typ[types.String], v: e.strConst(msg)}
 	case "ssa:wrapnilchk":
 		p := args[0].(PtrV)
 		if p.isNil() {
